@@ -39,7 +39,7 @@ def gen_cases(tier, seed):
             sm = smats[rng.integers(len(smats))]
             cases.append({"crystal": {"name": name, "order": ["asis", "interleave", "random"][rng.integers(3)], "order_seed": int(rng.integers(1000)),
                                       "int_shift": bool(rng.integers(2))},
-                          "smat": sm, "pmat": ["P", "centring", "centring"][rng.integers(3)], "cls": ["fixed", "noisy", "random"][rng.integers(3)],
+                          "smat": sm, "pmat": ["P", "centring", "centring"][rng.integers(3)], "cls": ["fixed", "noisy", "random", "asr_only"][rng.integers(4)],
                           "level": int(rng.integers(1, 4)), "seed": int(rng.integers(10 ** 6)), "store_dense_svecs": bool(rng.integers(2)),
                           "_cost": (nu * setup.det3(sm)) ** 2})
     return cases
@@ -91,6 +91,11 @@ def run_case(c):
         fc0 = model
     elif c["cls"] == "noisy":
         fc0 = model + 0.05 * np.abs(model).max() * models.random_periodic_fc(Ls, xs, pr.cell, rng)
+    elif c["cls"] == "asr_only":
+        # translationally invariant along both indices (zero drift) but NOT permutation symmetric: e.g. force constants that only had the
+        # acoustic sum rule imposed
+        fc0 = models.random_periodic_fc(Ls, xs, pr.cell, rng, permutation_symmetric=False, asr=True)
+        fc0 = fc0 - fc0.sum(axis=0, keepdims=True) / ns  # column sums to zero as well (periodic arrays: row sums stay zero)
     else:
         fc0 = models.random_periodic_fc(Ls, xs, pr.cell, rng)
     scale = float(np.abs(fc0).max())
